@@ -147,6 +147,7 @@ type Sched struct {
 	wake     chan struct{}
 	Log      *EventLog
 	Broken   string // set when an internal scheduling rule was violated
+	Burst    bool   // burst windows: also keep segment grants apart from a held cache lock
 }
 
 func NewSched() *Sched {
@@ -289,7 +290,11 @@ func (s *Sched) enabledLocked(p *Pending) bool {
 			}
 		}
 	}
-	if c, ok := s.segCache[p.Lock]; ok && s.held[c] {
+	if c, ok := s.segCache[p.Lock]; s.Burst && ok && s.held[c] {
+		// burst windows only: with one event per step the cache lock is
+		// never held at a scheduling point by the current code, and code that
+		// takes a segment lock while holding the cache lock must be able to
+		// proceed once the segment is free
 		return false
 	}
 	return true
